@@ -493,6 +493,26 @@ theorem parseLoop_source (src org : Str) (bs bo : List Nat) (X : List Str) (s : 
   rw [parseLoop_blank _ _ _ (blank_block_tail c!"SOURCE" src bs),
     parseLoop_blank _ _ _ (blank_subblock c!" ORGANISM" org bo)]
 
+/-- SOURCE written without an ORGANISM line: the source is set, the organism stays empty (6ccbb58) -/
+theorem parseLoop_source_alone (src : Str) (bs : List Nat) (X : List Str) (s : Sequence)
+    (hs : isText src = true) (hX : MetaHead X) :
+    parseLoop (block c!"SOURCE" src bs ++ X) s
+      = parseLoop X { s with md := { s.md with source := src, organism := [] } } := by
+  have hkw : KwOK c!"SOURCE" := ⟨by decide, by decide, by decide, by decide⟩
+  have h1 : block c!"SOURCE" src bs = (block c!"SOURCE" src bs).headD [] :: (block c!"SOURCE" src bs).drop 1 := by
+    rw [block_eq]; rfl
+  have hq : trimSpace (headOf (split ((block c!"SOURCE" src bs).headD []) c!" ")) = c!"SOURCE" := by
+    rw [block_eq]; exact (kwLine_kw c!"SOURCE" _ hkw).1
+  have hget : getSourceOrganism (split ((block c!"SOURCE" src bs).headD []) c!" ")
+      ((block c!"SOURCE" src bs).drop 1 ++ X) = .ok (src, []) := by
+    obtain ⟨m, rest, rfl, hm⟩ := hX
+    exact getSourceOrganism_alone src bs m rest hs hm
+  rw [h1, List.cons_append]
+  simp only [parseLoop]
+  rw [parseStep_source _ _ _ hq, hget]
+  simp only [Outcome.bind_ok']
+  rw [parseLoop_blank _ _ _ (blank_block_tail c!"SOURCE" src bs)]
+
 theorem locusLine_kw (l : RLocus) (ℓ : RecLayout) :
     trimSpace (headOf (split (locusLine l ℓ) c!" ")) = c!"LOCUS" := by
   show trimSpace (headOf (splitC ' ' _)) = _
@@ -536,23 +556,17 @@ theorem parseLoop_mblock (om : Bool) (kw : Str) (upd : Sequence → Str → Sequ
   · rename_i h; rw [h.2, h0]; rfl
   · exact parseLoop_block kw upd hkw hstep t bs X s ht hX
 
-/-- SOURCE / ORGANISM, for every layout that writes the ORGANISM line under a SOURCE block it writes (`hoo`;
-without that line the parser takes the next keyword line for it: known finding C01-source-without-organism) -/
+/-- SOURCE / ORGANISM: both written, both left out, or the empty ORGANISM line alone left out (6ccbb58) -/
 theorem parseLoop_sourceBlock (om oo : Bool) (src org : Str) (bs bo : List Nat) (X : List Str) (s : Sequence)
     (hs : isText src = true) (ho : isText org = true) (hX : MetaHead X)
-    (h0 : ({ s with md := { s.md with source := [], organism := [] } } : Sequence) = s)
-    (hoo : (oo && org == [] && !(om && src == [])) = false) :
+    (h0 : ({ s with md := { s.md with source := [], organism := [] } } : Sequence) = s) :
     parseLoop (sourceBlock om oo src org bs bo ++ X) s
       = parseLoop X { s with md := { s.md with source := src, organism := org } } := by
   unfold sourceBlock; split
   · rename_i h; rw [h.2.1, h.2.2, h0]; rfl
-  · rename_i h
-    have hno : ¬ (oo = true ∧ org = []) := by
-      rintro ⟨h1, h2⟩
-      subst h1; subst h2
-      simp only [Bool.true_and, beq_self_eq_true, Bool.not_eq_false', Bool.and_eq_true, beq_iff_eq] at hoo
-      exact h ⟨hoo.1, hoo.2, rfl⟩
-    rw [if_neg hno, List.append_assoc]; exact parseLoop_source src org bs bo X s hs ho hX
+  · split
+    · rename_i h2; rw [h2.2, List.append_nil]; exact parseLoop_source_alone src bs X s hs hX
+    · rw [List.append_assoc]; exact parseLoop_source src org bs bo X s hs ho hX
 
 /-! ### the slots of the extra keyword blocks -/
 
@@ -688,7 +702,7 @@ theorem toSequenceM_eq {r : GbRec} (h : ∀ f ∈ r.features, distinct (f.quals.
 /-- the main loop over the lines of a laid-out record (followed by empty lines), for every record of the
 quantifier, repeated qualifier keys included -/
 theorem parseLoop_layout_loose (r : GbRec) (ℓ : RecLayout) (tail : List Str) (h : wfLoose r = true)
-    (ht : ∀ l ∈ tail, l = []) (hoo : orgOmitted r ℓ = false) :
+    (ht : ∀ l ∈ tail, l = []) :
     parseLoop (layout r ℓ ++ tail) {} = .ok (toSequenceM r) := by
   simp only [wfLoose, Bool.and_eq_true, decide_eq_true_eq, List.all_eq_true] at h
   obtain ⟨⟨⟨⟨⟨⟨⟨⟨⟨⟨⟨⟨hlocus, hdef⟩, hacc⟩, hver⟩, hkey⟩, hsrc⟩, horg⟩, hrefs⟩, hex⟩, hexd⟩, hfeat⟩, hseq⟩, hlen⟩ := h
@@ -740,7 +754,7 @@ theorem parseLoop_layout_loose (r : GbRec) (ℓ : RecLayout) (tail : List Str) (
     (fun line sub s hq => parseStep_keywords line sub s hq) _ _ _ _ hkey hE4 rfl]
   -- slot 4, SOURCE / ORGANISM, slot 5, REFERENCE, the remaining extra blocks
   rw [parseLoop_extraSlot r ℓ 4 _ _ hex' hexd rfl hS]
-  rw [parseLoop_sourceBlock _ _ _ _ _ _ _ _ hsrc horg hE5 rfl hoo]
+  rw [parseLoop_sourceBlock _ _ _ _ _ _ _ _ hsrc horg hE5 rfl]
   rw [parseLoop_extraSlot r ℓ 5 _ _ hex' hexd rfl hR]
   rw [parseLoop_refs r.refs 0 ℓ.refs _ _ hrefs hE6]
   rw [show extraRest r ℓ = extrasLines ((r.extras.drop (off ℓ.extraCuts 6)).take (afterRefsCount r ℓ))
@@ -764,10 +778,9 @@ theorem parseLoop_layout_loose (r : GbRec) (ℓ : RecLayout) (tail : List Str) (
   simp [toSequenceM, toSequence]
 
 /-- with pairwise distinct qualifier keys: exactly what the record states -/
-theorem parseLoop_layout (r : GbRec) (ℓ : RecLayout) (tail : List Str) (h : wf r = true) (ht : ∀ l ∈ tail, l = [])
-    (hoo : orgOmitted r ℓ = false) :
+theorem parseLoop_layout (r : GbRec) (ℓ : RecLayout) (tail : List Str) (h : wf r = true) (ht : ∀ l ∈ tail, l = []) :
     parseLoop (layout r ℓ ++ tail) {} = .ok (toSequence r) := by
   obtain ⟨hl, hd⟩ := wf_loose h
-  rw [parseLoop_layout_loose r ℓ tail hl ht hoo, toSequenceM_eq hd]
+  rw [parseLoop_layout_loose r ℓ tail hl ht, toSequenceM_eq hd]
 
 end PolyVerif.Lemmas.Genbank
